@@ -74,7 +74,8 @@ def _draw_chunk(rng: random.Random, n: int) -> int:
 def generate(rng: random.Random, tier: str) -> dict:
     # pylint: disable=too-many-locals,too-many-branches,too-many-statements
     mode = rng.choice(["same-exact"] * 5 + ["same-inexact"] * 2 + ["same-rotated"] * 2 + ["cross"] * 4)
-    sny, snx = rng.choice([1, 2, 3, 5, 8, 13, 16, 17, 24, 31, 48]), rng.choice([1, 2, 3, 5, 8, 13, 16, 17, 24, 31, 48])
+    sides = [1, 2, 3, 5, 8, 13, 16, 17, 24, 31, 48] + ([64, 96] if tier == "thorough" else [])
+    sny, snx = rng.choice(sides), rng.choice(sides)
     dtype = rng.choice(["uint8", "int8", "uint16", "int16", "int32", "float32", "float64", "bool"])
     kind = np.dtype(dtype).kind
     nd_cfg = rng.choice(["none", "none", "src", "dst", "both", "nan"])
